@@ -369,7 +369,7 @@ func vfFecRunIcpt(t *testing.T, sc *vfFecScript, out *vfWriter, concurrent bool)
 	}
 }
 
-var errVfFecInjected = errors.New("injected downstream write failure") //nolint:gochecknoglobals
+var errVfFecInjected error = vfInjErr{"injected downstream write failure"} //nolint:gochecknoglobals
 
 // ---- growth of C14: the RFC 8627 encoder (FlexEncoder20), see spec/Trace_FlexFec20.tla --------------------------------
 
